@@ -404,10 +404,30 @@ def check_paths(fx, R, cq, cname):
     want_prod = ('expr', ('=', 'this.inverseJtJ_', ('*', ('*', ('.matrixV', sv), 'this.inverseJtJ_'), ('.transpose', ('.matrixU', sv)))))
     if want_diag in sts and want_prod in sts and sts.index(want_diag) < sts.index(want_prod):
         R.holds('L3', cname + '::estimateUsingSVD:pinv', 'V diag(1/sigma) U^T', fx.rel(fs['loc']), 'E-SIB')
+    elif [s_ for s_ in sts if s_[0] == 'expr' and isinstance(s_[1], tuple) and s_[1][:2] == ('=', 'this.inverseJtJ_') and isinstance(s_[1][2], tuple) and s_[1][2][:2] == ('.solve', sv) and 'Identity' in str(s_[1][2][2])]:
+        R.holds('L3', cname + '::estimateUsingSVD:pinv', 'inverse = svd.solve(Identity) of the SVD of JtJ_', fx.rel(fs['loc']), 'E-SIB')
     else:
         R.undecided('L3', cname + '::estimateUsingSVD:pinv', 'pseudo-inverse is not in the enumerated form V * diag(f(sigma)) * U^T: %s' % [s[1] for s in sts if s[0] == 'expr' and contains_name(s, 'this.inverseJtJ_')])
     loops = [x for x in walk(fs['body']) if x.get('k') == 'For']
     inst = cname + '::estimateUsingSVD:truncation'
+    solve_form = [s_ for s_ in sts if s_[0] == 'expr' and isinstance(s_[1], tuple) and s_[1][:2] == ('=', 'this.inverseJtJ_') and isinstance(s_[1][2], tuple) and s_[1][2][:2] == ('.solve', sv)
+                  and 'Identity' in str(s_[1][2][2])]
+    if not loops and solve_form:
+        # inverse = svd.solve(Identity): Eigen drops the singular values below threshold() * (largest one); the default threshold is
+        # max(rows, cols) * machine epsilon, setThreshold(c) replaces it
+        thr = None
+        for x_ in walk(fs['body']):
+            if isinstance(x_, dict) and x_.get('k') == 'MCall' and x_.get('m') == 'setThreshold' and x_.get('args'):
+                thr = const_value(x_['args'][0])
+                thr_loc = x_.get('loc')
+        if thr is None and not any(isinstance(x_, dict) and x_.get('k') == 'MCall' and x_.get('m') == 'setThreshold' for x_ in walk(fs['body'])):
+            R.holds('L3', inst, 'svd.solve(Identity) with Eigen\'s default threshold (size * machine epsilon, relative)', fx.rel(fs['loc']), 'E-INT')
+        elif isinstance(thr, float):
+            R.check(thr <= SV['ratio'], 'L3', inst, 'svd.solve() drops the singular values below sigma_max * %.3g (setThreshold); %s, so well-determined directions are dropped from the solution and from the '
+                    'inverse normal matrix the covariance is built on' % (thr, SV['why']), 'relative threshold %.3g <= %g' % (thr, SV['ratio']), fx.rel(thr_loc or fs['loc']), 'E-INT')
+        else:
+            R.undecided('L3', inst, 'setThreshold argument is not a constant')
+        return
     if len(loops) != 1 or loop_header(loops[0]) is None:
         R.undecided('L3', inst, 'singular-value loop not found')
         return
